@@ -5,5 +5,5 @@
 From Coq Require Extraction ExtrOcamlBasic.
 From GV Require Import Prober.F64 Prober.Model Prober.Sha256 Prober.Monitors.
 Extraction Language OCaml.
-Extraction "prober_model.ml" case_acc case_mon case_mon_idx case_kB1 case_kB2 case_kB3 case_verdict
+Extraction "prober_model.ml" case_acc case_mon case_mon_idx case_verdict
   mk_flags backoff parse_latency probe_interval validate_flags build_uris sha256.
